@@ -538,7 +538,7 @@ def apply_and_judge(ctx, site, region, rxn, ref, basis, pid, feed, tgt, phases=(
     cur = feed
     for it in range(max(1, repeat)):
         out = _react_once(ctx, site if it == 0 else site + '.again', region, rxn, ref, basis, pid, qid, cur, tgt, phases,
-                          target, stream, units, T, P, rtol, check_conservation, coef_tol)
+                          target, stream, units, T, P, rtol, check_conservation, coef_tol, again=it > 0)
         first = first or out
         if out['raised']:
             break                 # a mol-basis target keeps the infeasible flows: nothing more to compare
@@ -548,7 +548,7 @@ def apply_and_judge(ctx, site, region, rxn, ref, basis, pid, feed, tgt, phases=(
 
 
 def _react_once(ctx, site, region, rxn, ref, basis, pid, qid, feed, tgt, phases, target, stream, units, T, P, rtol,
-                check_conservation, coef_tol):
+                check_conservation, coef_tol, again=False):
     pnames = list(PACKAGES[pid])
     qnames = list(PACKAGES[qid])
     MWp = mw(pid)
@@ -594,6 +594,10 @@ def _react_once(ctx, site, region, rxn, ref, basis, pid, qid, feed, tgt, phases,
         # the reaction object itself is only known up to ``coef_tol`` per stoichiometric coefficient (results of
         # cancelling arithmetic such as (a+b)-b): any entry may be off by coef_tol * (amount of reactant converted)
         delta = delta + coef_tol * sum(abs(lf.X * feas_in[lf.idx]) for lf in ref.leaves())
+    if again:
+        # the target holds the code's own previous result, the reference continues from the reference result:
+        # every entry may start off by round-off of the first pass
+        delta = delta + 1e-14 * scale_feas
     s_lo = float(np.minimum(feas_out - delta, 0.0).sum())
     s_hi = float(np.minimum(feas_out + delta, 0.0).sum())
     out = {'raised': raised, 'feas_out': feas_out, 'cmp_out': cmp_out, 'cmp_in': cmp_in, 'stream': stream}
